@@ -209,9 +209,154 @@ let run_case (t : toks) : string =
     k ^ " LEAK " ^ string_of_int (List.length leaked) ^ " HEAP " ^ string_of_int (List.length (List.filter heap_val leaked))
   | s -> failwith ("unknown op " ^ s)
 
+(* ---------- literal schema (C20; FORMAT.md section 4): `runner <schema.txt> <lschema.txt>` ---------- *)
+let lschema : lschema ref = ref { ls_items = []; ls_consts = [] }
+let lfield_names : (string * string, lfield) Hashtbl.t = Hashtbl.create 64
+
+let rec parse_rty (t : toks) : rty =
+  match next t with
+  | "string" -> RFastStr | "stdstring" -> RString | "void" -> RVoid | "bool" -> RBool | "bytesvec" -> RBytesVec
+  | "bytes" -> RBytes | "i8" -> RI8 | "i16" -> RI16 | "i32" -> RI32 | "i64" -> RI64 | "f64" -> RF64 | "of64" -> ROrderedF64
+  | "uuid" -> RUuid
+  | "vec" -> let a = parse_rty t in RVec a
+  | "set" -> let a = parse_rty t in RSet a
+  | "btreeset" -> let a = parse_rty t in RBTreeSet a
+  | "map" -> let a = parse_rty t in let b = parse_rty t in RMap (a, b)
+  | "btreemap" -> let a = parse_rty t in let b = parse_rty t in RBTreeMap (a, b)
+  | "arc" -> let a = parse_rty t in RArc a
+  | "path" -> let n = next t in
+    (try RPath (nat_of_int (Hashtbl.find names n)) with Not_found -> failwith ("unknown type " ^ n))
+  | s -> failwith ("bad rir type " ^ s)
+
+let rec parse_lit (t : toks) : lit =
+  let tok = next t in
+  let arg = String.sub tok 1 (String.length tok - 1) in
+  match tok.[0] with
+  | 'i' -> LInt (z_of_string arg)
+  | 'b' -> LBool (arg = "1")
+  | 'f' -> LFloat (bytes_of_hex arg)
+  | 's' -> LString (bytes_of_hex arg)
+  | 'c' -> LConst (nat_of_int (int_of_string arg))
+  | 'm' ->
+    (match String.split_on_char ':' tok with
+     | [_; e; i] ->
+       (try LMember (nat_of_int (Hashtbl.find names e), nat_of_int (int_of_string i))
+        with Not_found -> failwith ("unknown enum " ^ e))
+     | _ -> failwith ("bad member literal " ^ tok))
+  | 'L' -> LList (rep (int_of_string arg) (fun () -> parse_lit t))
+  | 'M' -> LMap (rep (int_of_string arg) (fun () -> let a = parse_lit t in let b = parse_lit t in (a, b)))
+  | _ -> failwith ("bad literal token " ^ tok)
+
+let load_lschema (path : string) : lschema =
+  let ic = open_in path in
+  let lines = ref [] in
+  (try while true do
+       let l = String.trim (input_line ic) in
+       if l <> "" then lines := l :: !lines
+     done with End_of_file -> ());
+  close_in ic;
+  let lines = List.rev !lines in
+  let items = ref [] and consts = ref [] in
+  List.iter (fun l ->
+      let t = { rest = String.split_on_char ' ' l } in
+      match next t with
+      | "lstruct" ->
+        let sname = next t in
+        let fl = next t in
+        let n = next_int t in
+        let fs = rep n (fun () ->
+            let id = next_z t in
+            let rq = (match next t with "req" -> Required | "opt" -> Optional | s -> failwith ("bad requiredness " ^ s)) in
+            let name = bytes_of_hex (next t) in
+            let ty = parse_rty t in
+            let d = next t in
+            let dflt = if d = "-" then None else Some (parse_lit { rest = String.split_on_char ',' d }) in
+            let f = { lf_name = name; lf_id = id; lf_req = rq; lf_ty = ty; lf_dflt = dflt } in
+            Hashtbl.replace lfield_names (sname, string_of_z id) f;
+            f) in
+        items := IStruct (fs, not (has 'k' fl), has 'a' fl) :: !items
+      | "lunion" ->
+        let _ = next t in
+        let fl = next t in
+        let n = next_int t in
+        let vs = rep n (fun () -> let id = next_z t in let ty = parse_rty t in (id, ty)) in
+        items := IUnion (vs, has 'v' fl, not (has 'k' fl)) :: !items
+      | "lenum" ->
+        let _ = next t in
+        let n = next_int t in
+        items := IEnum (rep n (fun () -> next_z t)) :: !items
+      | "ltypedef" ->
+        let _ = next t in
+        items := INewType (parse_rty t) :: !items
+      | "lconst" ->
+        let _ = next t in
+        let ty = parse_rty t in
+        let l = parse_lit { rest = String.split_on_char ',' (next t) } in
+        consts := (ty, l) :: !consts
+      | s -> failwith ("bad lschema line kind " ^ s)) lines;
+  { ls_items = List.rev !items; ls_consts = List.rev !consts }
+
+(* decimal text -> bits of the nearest double: OCaml's float_of_string (strtod; correctly rounded) on the texts the IDL
+   grammar admits (sign, digits, '.', exponent) -- the [parse_f64] parameter of Lit.v / LitSpec.v (trusted) *)
+let parse_f64 (bs : byte list) : z option =
+  let s = String.init (List.length bs) (fun i -> Char.chr (int_of_byte (List.nth bs i))) in
+  let ok = s <> "" && String.for_all (fun c -> (c >= '0' && c <= '9') || c = '.' || c = 'e' || c = 'E' || c = '-' || c = '+') s in
+  if not ok then None else
+    match float_of_string_opt s with
+    | None -> None
+    | Some f ->
+      let b = Int64.bits_of_float f in
+      let lo = Int64.to_int (Int64.logand b 0xFFFFFFFFL) and hi = Int64.to_int (Int64.shift_right_logical b 32) in
+      Some (Z.add (Z.mul (z_of_int hi) (z_of_string "4294967296")) (z_of_int lo))
+
+let string_of_lsite = function
+  | PUnexpectedLiteral -> "UnexpectedLiteral" | PInvalidConvert -> "InvalidConvert" | PInvalidEnum -> "InvalidEnum"
+  | PInvalidEnumValue -> "InvalidEnumValue" | PInvalidMapType -> "InvalidMapType" | PAssertEmpty -> "AssertEmpty"
+  | PParseFloat -> "ParseFloat" | PNotMessage -> "NotMessage" | PKeyNotString -> "KeyNotString" | PUnwrap -> "Unwrap"
+let string_of_lerr = function EFuel -> "fuel" | ENoValue -> "novalue"
+let string_of_pclass = function
+  | None -> "none"
+  | Some PCPathConvert -> "path-convert" | Some PCNestedMap -> "nested-map" | Some PCNoArm -> "no-arm"
+  | Some PCConstContainer -> "const-container" | Some PCDangling -> "dangling"
+let show_opt = function Some v -> show v | None -> "none"
+let show_lres f = function LOk x -> "ok " ^ f x | LErr e -> "err " ^ string_of_lerr e | LPanic s -> "panic " ^ string_of_lsite s
+
+let run_lit_case (t : toks) : string =
+  match next t with
+  | "lit" ->
+    (* lit <Struct> <field id>: the lowering of the field's default (value, const flag), its IDL meaning, its class *)
+    let sname = next t in
+    let fid = next t in
+    let f = (try Hashtbl.find lfield_names (sname, fid) with Not_found -> failwith ("unknown field " ^ sname ^ "." ^ fid)) in
+    (match f.lf_dflt with
+     | None -> "LIT none"
+     | Some l ->
+       let low = default_val_lit parse_f64 !lschema f.lf_ty l in
+       "LIT " ^ show_lres (fun (v, c) -> (if c then "C " else "N ") ^ show v) low
+       ^ " WT " ^ (if well_typed_lit parse_f64 !lschema (erase f.lf_ty) l then "1" else "0")
+       ^ " CLASS " ^ string_of_pclass (pclass_top !lschema l (item_cty f.lf_ty))
+       ^ " SPEC " ^ show_opt (lit_value_top parse_f64 !lschema (erase f.lf_ty) l))
+  | "ldflt" ->
+    (* ldflt <Type>: Default::default() three ways: ImplDefaultPlugin model inside Lit.v, Defaults.default_of over the
+       projected schema, the expected default from the IDL alone *)
+    let n = (try Hashtbl.find names (next t) with Not_found -> failwith "unknown type") in
+    "LDFLT MODEL " ^ show_lres show (rust_default parse_f64 !lschema (RPath (nat_of_int n)))
+    ^ " PROJ " ^ show_opt (default_of (proj parse_f64 !lschema) (TyRef (nat_of_int n)))
+    ^ " SPEC " ^ show_opt (expected_default parse_f64 !lschema (nat_of_int n))
+  | "lconst" ->
+    "LCONST " ^ show_lres show (const_value parse_f64 !lschema (nat_of_int (next_int t)))
+  | "lschema" ->
+    "LSCHEMA class_free " ^ (if class_free_schema !lschema then "1" else "0")
+    ^ " lits_typed " ^ (if lits_typed parse_f64 !lschema then "1" else "0")
+    ^ " items " ^ string_of_int (List.length !lschema.ls_items) ^ " consts " ^ string_of_int (List.length !lschema.ls_consts)
+  | s -> failwith ("unknown literal op " ^ s)
+
+let is_lit_op = function "lit" | "ldflt" | "lconst" | "lschema" -> true | _ -> false
+
 let () =
   if Array.length Sys.argv < 2 then (prerr_endline "usage: runner <schema.txt>"; exit 2);
   schema := load_schema Sys.argv.(1);
+  if Array.length Sys.argv >= 3 then lschema := load_lschema Sys.argv.(2);
   (try
      while true do
        let line = input_line stdin in
@@ -219,7 +364,7 @@ let () =
          match String.split_on_char ' ' (String.trim line) with
          | [] | [""] -> ""
          | toks ->
-           (try run_case { rest = toks } with
+           (try (if is_lit_op (List.hd toks) then run_lit_case { rest = toks } else run_case { rest = toks }) with
             | Not_found -> "BADCASE not found"
             | Failure m -> "BADCASE " ^ m
             | Stack_overflow -> "BADCASE stack overflow"
